@@ -24,11 +24,3 @@ theorem std_gates : (facts.all fun f => !(f.kind == "std_gate") || stdGateFiles.
 
 end HH.C18
 
-namespace HH.C15
-open HH.Facts
-/-- no `static` item, `thread_local!`/`lazy_static!`, interior-mutability or synchronisation type,
-and no foreign block, anywhere in `src/`: the constructs through which Rust code reaches
-process-global mutable state without being handed a reference to it -/
-theorem no_global_state :
-    (facts.all fun f => !(f.kind == "global" || f.kind == "extern_block")) = true := by decide +kernel
-end HH.C15
